@@ -61,6 +61,7 @@ pub fn judge(root: &Root, c: &Cycle, out: &Outcome, rep: &mut Report, replay: &m
     let occ = root.occurrences_of_root();
     if occ >= 3 { rep.count("roots_already_threefold"); } else if occ == 2 { rep.count("roots_occurred_twice"); }
     if root.pos.full > 2500 { rep.count("roots_fullmove_above_2500"); }
+    if root.pos.full >= 32766 { rep.count("roots_fullmove_at_or_above_32766"); }
     if legal.is_empty() {
         rep.count(if root.pos.is_mate() { "mate_roots" } else { "stalemate_roots" });
         if out.best.is_some() {
@@ -133,7 +134,7 @@ pub fn run_script(d: &mut dyn Driver, script: &Script, roots: &[Root], rep: &mut
 pub fn run(args: &monlib::Args, rep: &mut Report) {
     let mut rng = gen::rng(args.seed, args.shard, 7);
     let mut starts = gen::Starts::new(3000, 30000, args.shard as usize * 17);
-    let n = args.budget(2_400, 96_000) / args.nshards.max(1);
+    let n = args.budget(2_400, 48_000) / args.nshards.max(1);
     let app = args.rest.get("app").cloned();
     let app_hooked = args.rest.get("app-hooked").cloned();
     for i in 0..n {
